@@ -44,4 +44,35 @@ MUTANTS = [
     dict(name="c11-refactor-weights-and-fractions-quiet", props=["C11"], expect="quiet", edits=[
         (IT, "            self.dState = timestep * D.ar_numpy.sum(self.stage_values * self.tableau_final[0, 1:], axis=-1)", "            self.dState = D.ar_numpy.sum(timestep * self.tableau_final[0, 1:] * self.stage_values, axis=-1)"),
         (IM, "        [[1 / 3, 5 / 12, -1 / 12],", "        [[2 / 6, 10 / 24, -2 / 24],")]),
+    # ---- C16
+    dict(name="c16-jac-evaluated-at-stale-time", props=["C16"], only="hist-noattr-dim1-J", edits=[(DS, "            if t != self.__jac_time:\n                self.__jac_time = t\n", "            if self.__jac_time is None:\n                self.__jac_time = t\n")]),
+    dict(name="c16-rebuilt-wrapper-captures-zero-time", props=["C16"], only="hist-noattr-dim2-J", edits=[(DS, "                self.__jac = deutil.JacobianWrapper(lambda y, **kwargs: self(t, y, **kwargs),", "                self.__jac = deutil.JacobianWrapper(lambda y, **kwargs: self(0.0, y, **kwargs),")]),
+    dict(name="c16-transposed-layout", props=["C16"], only="affine-2-to-2-bo5", all=True, edits=[(UT, "jacobian_y[:, idx]", "jacobian_y[idx, :]")]),
+    dict(name="c16-final-reshape-input-first", props=["C16"], only="affine-3-to-2-bo4", edits=[(UT, "            return jacobian_y.reshape((*D.ar_numpy.shape(dy_val), *D.ar_numpy.shape(y)))", "            return jacobian_y.reshape((*D.ar_numpy.shape(y), *D.ar_numpy.shape(dy_val)))")]),
+    dict(name="c16-njev-counted-twice", props=["C16"], only="hist-attr-dim1-H", edits=[(DS, "        self.njev += 1\n        return called_val", "        self.njev += 2\n        return called_val")]),
+    dict(name="c16-mask-not-cleared", props=["C16"], only="affine-3-to-2-bo2", edits=[(UT, "            y_msk[idx - 1] = 0.0\n", "            pass\n")]),
+    dict(name="c16-richardson-denominator", props=["C16"], only="poly-1var-deg3-bo2", all=True, edits=[(UT, "(denom ** n - 1)", "(denom ** n + 1)")]),
+    dict(name="c16-hook-keeps-wrapped-flag", props=["C16"], only="hist-noattr-dim1-J", edits=[(DS, "        self.__jac = jac_fn\n        self.__jac_time = None\n        self.__jac_is_wrapped_rhs = False", "        self.__jac = jac_fn\n        self.__jac_time = None")]),
+    dict(name="c16-relative-step-without-sign", props=["C16"], only="affine-s-to-s-bo5-fixed1", edits=[(UT, "                dy_cur = dy_cur * val\n", "                dy_cur = dy_cur * D.ar_numpy.abs(val)\n")], expect="quiet"),
+    dict(name="c16-refactor-extrapolation-formula-quiet", props=["C16"], expect="quiet", all=True, edits=[
+        (UT, "A[m].append(A[m][n - 1] + (A[m][n - 1] - A[m - 1][n - 1]) / (denom ** n - 1))", "A[m].append((denom ** n * A[m][n - 1] - A[m - 1][n - 1]) / (denom ** n - 1))"),
+        (DS, "            if t != self.__jac_time:", "            if not (t == self.__jac_time):")]),
+    # ---- C19
+    dict(name="c19-revert-nearest-neighbour", props=["C19"], only="time-lookup-euler", edits=[(DS, "                if nearest_idx > 0 and D.ar_numpy.abs(D.ar_numpy.to_numpy(self.t[nearest_idx - 1] - index)) < D.ar_numpy.abs(", "                if nearest_idx > 1 and D.ar_numpy.abs(D.ar_numpy.to_numpy(self.t[nearest_idx - 1] - index)) < D.ar_numpy.abs(")]),
+    dict(name="c19-index-ge-counter", props=["C19"], only="index-iter-euler", edits=[(DS, "            if index > self.counter:\n                raise IndexError(", "            if index >= self.counter:\n                raise IndexError(")]),
+    dict(name="c19-slice-end-off-by-one", props=["C19"], only="slice-euler", edits=[(DS, "                end_idx = self.__search_time(index.stop) + 1", "                end_idx = self.__search_time(index.stop)")]),
+    dict(name="c19-decreasing-grid-unsupported", props=["C19"], only="euler", edits=[(DS, "        if len(t) > 1 and t[-1] < t[0]:\n            reversed_t", "        if False:\n            reversed_t")]),
+    # ---- C20
+    dict(name="c20-nfev-counted-before-call", props=["C20"], only="fault-reset", edits=[(DS, "        called_val = self.rhs(t, y, *args, **kwargs)\n        self.nfev += 1\n        return called_val", "        self.nfev += 1\n        called_val = self.rhs(t, y, *args, **kwargs)\n        return called_val")]),
+    dict(name="c20-reset-keeps-nfev", props=["C20"], only="fault-reset", edits=[(DS, "        self.equ_rhs.nfev = 0\n", "")]),
+    dict(name="c20-callback-before-dt-update", props=["C20"], only="callback-dt-euler", edits=[(DS, "                if not is_final_step:\n                    self.dt = new_dt\n\n                for i in callback:\n                    i(self)\n", "                for i in callback:\n                    i(self)\n\n                if not is_final_step:\n                    self.dt = new_dt\n")]),
+    dict(name="c20-callbacks-reversed", props=["C20"], only="counts-euler", edits=[(DS, "                for i in callback:\n                    i(self)", "                for i in reversed(callback):\n                    i(self)")]),
+    dict(name="c20-symplectic-bypasses-counter", props=["C20"], only="counts-sympl", edits=[(IT, "                aux = timestep * rhs(current_time, initial_state + self.dState, **constants)", "                aux = timestep * rhs.rhs(current_time, initial_state + self.dState, **constants)")]),
+    # ---- C12
+    dict(name="c12-row-written-before-integrator-returns", props=["C12"], only="rhs-fault-euler", edits=[(DS, "                new_dt, (dTime, dState) = self.integrator(self.equ_rhs, self.__t[self.counter], self.__y[self.counter],\n                                                           self.constants, timestep=dt)\n", "                self.counter += 1\n                try:\n                    new_dt, (dTime, dState) = self.integrator(self.equ_rhs, self.__t[self.counter - 1], self.__y[self.counter - 1],\n                                                           self.constants, timestep=dt)\n                finally:\n                    self.counter -= 1\n" )], expect="quiet"),
+    dict(name="c12-cause-dropped", props=["C12"], only="rhs-fault-euler-k02", edits=[(DS, "            new_e.__cause__ = e\n", "            new_e.__cause__ = None\n")]),
+    dict(name="c12-keyboardinterrupt-wrapped", props=["C12"], only="KeyboardInterrupt", edits=[(DS, "        except KeyboardInterrupt as e:\n            self.__int_status = e\n            raise e", "        except KeyboardInterrupt as e:\n            self.__int_status = e\n            raise etypes.FailedIntegration(\"interrupted\") from e")]),
+    dict(name="c12-counter-incremented-before-state-write", props=["C12"], only="callback-fault-euler", edits=[(DS, "                self.__y[self.counter + 1] = self.__y[self.counter] + dState\n                self.__t[self.counter + 1] = self.__t[self.counter] + dTime\n\n                self.counter += 1\n", "                self.counter += 1\n                self.__t[self.counter] = self.__t[self.counter - 1] + dTime\n                for i in callback:\n                    i(self)\n                self.__y[self.counter] = self.__y[self.counter - 1] + dState\n")]),
+    dict(name="c12-reset-keeps-dense-output", props=["C12"], only="rhs-fault-euler-k03", edits=[(DS, "        self.__sol = DenseOutput(None, None)\n        self.dt = self.__dt0", "        self.dt = self.__dt0")]),
+    dict(name="c12-stale-final-rhs-after-failed-step", props=["C12"], only="rhs-fault-rk4", edits=[(IT, "        self.dTime = D.ar_numpy.copy(timestep)\n        if self.is_fsal and self.is_explicit:", "        self.final_rhs = intermediate_rhs\n        self.dTime = D.ar_numpy.copy(timestep)\n        if self.is_fsal and self.is_explicit:")]),
 ]
